@@ -1762,6 +1762,11 @@ impl Interp {
         for t in top {
             let (_, srcs, _) = model_deps(&self.st, t);
             let snap: BTreeMap<Src, u64> = srcs.iter().map(|s| (*s, self.v(*s))).collect();
+            if srcs.iter().any(|s| self.eq_write_after_change.contains(s)) && self.cache.get(t).map(|r| !r.srcs_at_call.is_empty()).unwrap_or(false) {
+                // a cached reader is called again after an equal-value write that followed a change
+                self.out.nontrivial_c02 = true;
+                self.out.labels.insert("cached-reader-called-after-equal-value-write");
+            }
             if let Some(rec) = self.cache.get_mut(t) {
                 if !rec.srcs_at_call.is_empty() || !snap.is_empty() {
                     let changed = rec.srcs_at_call.iter().any(|(s, v)| snap.get(s).map(|x| x != v).unwrap_or(true))
